@@ -65,43 +65,56 @@ CLEANUP_MULTI = '''//@ func {name}$1()
 //@   ensures held[testsRegistry.Mutex] == 0
 //@
 '''
+CONFIG_IMM = """//@   ensures [config_immutable] (forall r Ref: old(alloc)[r] ==> heap(Config.filename)[r] == old(heap(Config.filename))[r] && heap(Config.snapsDir)[r] == old(heap(Config.snapsDir))[r] && heap(Config.extension)[r] == old(heap(Config.extension))[r] && heap(Config.update)[r] == old(heap(Config.update))[r] && heap(Config.json)[r] == old(heap(Config.json))[r])
+//@   ensures [config_pointees] (c.update != nil ==> *c.update == old(*c.update)) && (c.json != nil ==> c.json.Width == old(c.json.Width) && c.json.Indent == old(c.json.Indent) && c.json.SortKeys == old(c.json.SortKeys))
+"""
 out=[]
+wrappers=[]
+def emit(header, body, wr):
+    """header: '//@ func name(params)' lines incl. mode/dead; body: rest. wr: list of (wrapper header, let-c line or '')"""
+    out.append(header+body+CONFIG_IMM+'//@\n')
+    for wh, letc in wr:
+        b = body
+        wrappers.append(wh+'//@   mode ctl\n'+letc+b+CONFIG_IMM+'//@\n')
 # ---- matchSnapshot
 out.append(CLEANUP_MULTI.format(name='matchSnapshot'))
-out.append('''//@ func matchSnapshot(c, t, values)
+emit('''//@ func matchSnapshot(c, t, values)
 //@   mode ctl
 //@   dead ret5
-'''+COMMON_REQ+MULTI_REG+'''//@   let snap = takeSnapshot(values)
+''', COMMON_REQ+MULTI_REG+'''//@   let snap = takeSnapshot(values)
 '''+MULTI_ASSIGNS+'''//@   ensures [nocall] len(values) == 0 ==> dErr == 0 && dLog == 1 && nowrite && dFail == 0 && dAdd == 0 && dUpd == 0 && dPass == 0
-'''+multi_tail('len(values) > 0','true','noEND(stored) &&')+'//@\n')
+'''+multi_tail('len(values) > 0','true','noEND(stored) &&'),
+ [('//@ func MatchSnapshot(t, values)\n','//@   let c = defaultConfig\n'),('//@ func (*Config).MatchSnapshot(c, t, values)\n','')])
 # ---- matchJSON
 out.append(CLEANUP_MULTI.format(name='matchJSON'))
-out.append('''//@ func matchJSON(c, t, input, matchers)
+emit('''//@ func matchJSON(c, t, input, matchers)
 //@   mode ctl
 //@   dead ret6
 //@   loop 1 invariant forall r Ref: old(alloc)[r] ==> wbuf[r] == old(wbuf)[r]
-'''+COMMON_REQ+MULTI_REG+'''//@   let valid = vjErrOf(input) == nil
+''', COMMON_REQ+MULTI_REG+'''//@   let valid = vjErrOf(input) == nil
 //@   let doc = applyJ(vjBytesOf(input), arr(matchers), len(matchers))
 //@   let nme = nerrJ(vjBytesOf(input), arr(matchers), len(matchers))
 //@   let okIn = valid && nme == 0
 //@   let snap = jsonSnapOf(doc, c.json == nil, c.json.Width, c.json.Indent, c.json.SortKeys)
 '''+MULTI_ASSIGNS+'''//@   ensures [invalid] !valid ==> failed && nowrite && ordinalTaken
 //@   ensures [matcher_errors] valid && nme > 0 ==> failed && nowrite && ordinalTaken
-'''+multi_tail('true','okIn','')+'//@\n')
+'''+multi_tail('true','okIn',''),
+ [('//@ func MatchJSON(t, input, matchers)\n','//@   let c = defaultConfig\n'),('//@ func (*Config).MatchJSON(c, t, input, matchers)\n','')])
 # ---- matchYAML
 out.append(CLEANUP_MULTI.format(name='matchYAML'))
-out.append('''//@ func matchYAML(c, t, input, matchers)
+emit('''//@ func matchYAML(c, t, input, matchers)
 //@   mode ctl
 //@   dead ret6
 //@   loop 1 invariant forall r Ref: old(alloc)[r] ==> wbuf[r] == old(wbuf)[r]
-'''+COMMON_REQ+MULTI_REG+'''//@   let valid = vyOK(input)
+''', COMMON_REQ+MULTI_REG+'''//@   let valid = vyOK(input)
 //@   let doc = applyY(vyBytesOf(input), arr(matchers), len(matchers))
 //@   let nme = nerrY(vyBytesOf(input), arr(matchers), len(matchers))
 //@   let okIn = valid && nme == 0
 //@   let snap = esc(doc)
 '''+MULTI_ASSIGNS+'''//@   ensures [invalid] !valid ==> failed && nowrite && ordinalTaken
 //@   ensures [matcher_errors] valid && nme > 0 ==> failed && nowrite && ordinalTaken
-'''+multi_tail('true','okIn','noEND(stored) &&')+'//@\n')
+'''+multi_tail('true','okIn','noEND(stored) &&'),
+ [('//@ func MatchYAML(t, input, matchers)\n','//@   let c = defaultConfig\n'),('//@ func (*Config).MatchYAML(c, t, input, matchers)\n','')])
 
 # ---- standalone
 STANDALONE_REG = '''//@   requires standaloneTestsRegistry != nil && standaloneTestsRegistry.running != nil && standaloneTestsRegistry.cleanup != nil && standaloneTestsRegistry.running != standaloneTestsRegistry.cleanup
@@ -139,29 +152,35 @@ CLEANUP_ST = '''//@ func {name}$1()
 //@
 '''
 out.append(CLEANUP_ST.format(name='matchStandaloneSnapshot'))
-out.append('''//@ func matchStandaloneSnapshot(c, t, input)
+emit('''//@ func matchStandaloneSnapshot(c, t, input)
 //@   mode ctl
 //@   dead ret4
-'''+COMMON_REQ+STANDALONE_REG.format(ext='c.extension')+'''//@   let snap = krSprint(input)
-'''+STANDALONE_ASSIGNS+standalone_tail('true')+'//@\n')
+''', COMMON_REQ+STANDALONE_REG.format(ext='c.extension')+'''//@   let snap = krSprint(input)
+'''+STANDALONE_ASSIGNS+standalone_tail('true'),
+ [('//@ func MatchStandaloneSnapshot(t, input)\n','//@   let c = defaultConfig\n'),('//@ func (*Config).MatchStandaloneSnapshot(c, t, input)\n','')])
 out.append(CLEANUP_ST.format(name='matchStandaloneJSON'))
-out.append('''//@ func matchStandaloneJSON(c, t, input, matchers)
-//@   mode ctl
-//@   dead ret6
-//@   loop 1 invariant forall r Ref: old(alloc)[r] ==> wbuf[r] == old(wbuf)[r]
-'''+COMMON_REQ+STANDALONE_REG.format(ext='c.extension')+'''//@   let valid = vjErrOf(input) == nil
+SJ_BODY = (COMMON_REQ+STANDALONE_REG.format(ext='c.extension')+'''//@   let valid = vjErrOf(input) == nil
 //@   let doc = applyJ(vjBytesOf(input), arr(matchers), len(matchers))
 //@   let nme = nerrJ(vjBytesOf(input), arr(matchers), len(matchers))
 //@   let okIn = valid && nme == 0
 //@   let snap = jsonSnapOf(doc, c.json == nil, c.json.Width, c.json.Indent, c.json.SortKeys)
 '''+STANDALONE_ASSIGNS+'''//@   ensures [invalid] !valid ==> failed && nowrite && ordinalTaken
 //@   ensures [matcher_errors] valid && nme > 0 ==> failed && nowrite && ordinalTaken
-'''+standalone_tail('okIn')+'//@\n')
+'''+standalone_tail('okIn'))
+out.append('''//@ func matchStandaloneJSON(c, t, input, matchers)
+//@   mode ctl
+//@   dead ret6
+//@   loop 1 invariant forall r Ref: old(alloc)[r] ==> wbuf[r] == old(wbuf)[r]
+'''+SJ_BODY+CONFIG_IMM+'//@\n')
+# exported wrappers of the standalone JSON matcher default the extension to .json (on a copy of the Config)
+SJ_WR = SJ_BODY.replace("snapPathSpec(c.snapsDir, c.filename, c.extension,", "snapPathSpec(c.snapsDir, c.filename, (c.extension == \"\" ? \".json\" : c.extension),")
+wrappers.append('//@ func MatchStandaloneJSON(t, input, matchers)\n//@   mode ctl\n//@   let c = defaultConfig\n'+SJ_WR+CONFIG_IMM+'//@\n')
+wrappers.append('//@ func (*Config).MatchStandaloneJSON(c, t, input, matchers)\n//@   mode ctl\n'+SJ_WR+CONFIG_IMM+'//@\n')
 
 path='/repo/snaps/zz_contracts_verif.go'
 s=open(path).read()
 B='// BEGIN-GENERATED-MATCH (tools/gen_match_contracts.py)\n'; E='// END-GENERATED-MATCH\n'
-block=B+''.join(out)+E
+block=B+''.join(out)+'// ---- exported entry points (same contracts as the bodies they wrap) ----\n'+''.join(wrappers)+E
 if B in s:
     s=s[:s.index(B)]+block+s[s.index(E)+len(E):]
 else:
